@@ -148,6 +148,10 @@ fn eval_sort_expr_standalone(
             let right_val = eval_sort_expr_standalone(right, row, column_map);
             eval_binary_op_standalone(&left_val, op, &right_val)
         }
+        Expr::UnaryOp { op, expr } => {
+            let val = eval_sort_expr_standalone(expr, row, column_map);
+            eval_unary_op_standalone(op, val)
+        }
         Expr::Array(elements) => {
             let vals: Vec<f32> = elements
                 .iter()
@@ -162,6 +166,20 @@ fn eval_sort_expr_standalone(
                 .collect();
             Value::Vector(Cow::Owned(vals))
         }
+        _ => Value::Null,
+    }
+}
+
+fn eval_unary_op_standalone(
+    op: &crate::sql::ast::UnaryOperator,
+    val: Value<'static>,
+) -> Value<'static> {
+    use crate::sql::ast::UnaryOperator;
+
+    match (op, val) {
+        (UnaryOperator::Plus, v @ (Value::Int(_) | Value::Float(_))) => v,
+        (UnaryOperator::Minus, Value::Int(i)) => i.checked_neg().map(Value::Int).unwrap_or(Value::Null),
+        (UnaryOperator::Minus, Value::Float(f)) => Value::Float(-f),
         _ => Value::Null,
     }
 }
@@ -1640,6 +1658,10 @@ where
                 let left_val = Self::eval_sort_expr(left, row, column_map);
                 let right_val = Self::eval_sort_expr(right, row, column_map);
                 Self::eval_binary_op(&left_val, op, &right_val)
+            }
+            Expr::UnaryOp { op, expr } => {
+                let val = Self::eval_sort_expr(expr, row, column_map);
+                eval_unary_op_standalone(op, val)
             }
             Expr::Array(elements) => {
                 let vals: Vec<f32> = elements
